@@ -129,7 +129,8 @@ def _exec(sim, op):
         sim.kernel.settle()
     elif o == "end":
         _quiesce(sim, op.get("budget", 60.0), op.get("passes", 3))
-        sim.probe()
+        if not op.get("noprobe"):
+            sim.probe()
         if op.get("xprobe"):
             # C10: a harmless exclusive request must be accepted once everything is idle
             for w in list(sim.arb.watchers)[:1]:
